@@ -62,7 +62,9 @@ CLAIMS["C02"] = ("proof", "Lean 4 invariant + frame theorems over the world mode
                  "changes any other entity's components or values), read_last_written, components_eq_mask, removeComp_keeps_values, clone_copies_values, "
                  "same_key_same_archetype, archetype_rows_exact; " + _WM_TIE + ".",
                  WORLD_NOTE + "; the history-level statement (component sets and values of every entity = what its history implies) is "
-                 "Props/Refinement.run_refines, audited with this property, under the contract OpWf and the range conditions Bounds")
+                 "Props/Refinement.run_refines, audited with this property, under the contract OpWf and the range conditions Bounds; the row/location "
+                 "invariants (LiveInv, RowsOK, KeysOK) at EVERY reachable state incl. after flush/clearArch/update: rows_live_every_prefix, "
+                 "inv_rel_every_prefix; API-level validity = spec aliveness at every reachable state: valid_iff_spec_alive_every_prefix")
 CLAIMS["C05"] = ("proof", "Lean 4 theorems (isolation while locked, pack/flush structure, singleton packs = unlocked ops) + scripted-interleaving correspondence",
                  "locked_isolation (every API call issued while locked changes only buffers/nextEntityId/temps: validity, components, rows, locations fixed), "
                  "unlock_inner_noop, packs_concat/packs_one_entity/packs_create_first/packs_maximal, flush_order (buffers in thread order, packs in log "
